@@ -536,8 +536,13 @@ def candidates_py_swap(text, rel, rng):
             continue
         s1, s2 = _stmt_first_line(a), _stmt_first_line(b)
         e1, e2 = s2 - 1, b.end_lineno
-        opts.append({"kind": "swap", "file": rel, "a": [s1, e1], "b": [s2, e2], "names": [a.name, b.name]})
-    return rng.choice(opts) if opts else None
+        ed = {"kind": "swap", "file": rel, "a": [s1, e1], "b": [s2, e2], "names": [a.name, b.name]}
+        # pairs in which one definition mentions the other AT CALL TIME (a function body that calls / subclasses /
+        # instantiates the other definition) are the ones whose order an analyser may wrongly care about
+        late = a.name in _names_in(b) or b.name in _names_in(a)
+        ed["call_time_dependency"] = bool(late)
+        opts += [ed] * (5 if late else 1)
+    return dict(rng.choice(opts)) if opts else None
 
 
 BUILTIN_OK = {"len", "range", "str", "int", "print", "list", "dict", "set", "isinstance", "Exception", "True", "False",
@@ -589,13 +594,20 @@ def candidates_py_move(proj, rel, rng, keep, externals):
             free = free - {st.name}          # recursion is fine: the name is defined in the new module too
         if not free <= (BUILTIN_OK | set(externals)) or (free & module_bound):
             continue
-        newmod = "mv_" + st.name.lower()
+        # the name of the new module varies: unit ids follow the directory-listing order of the file names
+        newmod = rng.choice(["mv_", "a_", "zz_", "k9_", "core_"]) + st.name.lower()
         newrel = (d + "/" if d else "") + newmod + ".py"
         if newrel in proj["files"] or newmod in module_bound:
             continue
-        opts.append({"kind": "move", "file": rel, "range": [_stmt_first_line(st), st.end_lineno], "newfile": newrel,
-                     "name": st.name, "import": ["from %s import %s" % (newmod, st.name)], "header": []})
-    return rng.choice(opts) if opts else None
+        ed = {"kind": "move", "file": rel, "range": [_stmt_first_line(st), st.end_lineno], "newfile": newrel,
+              "name": st.name, "import": ["from %s import %s" % (newmod, st.name)], "header": []}
+        # RE-EXPORT variant: other files import the function from `rel`; after the move `rel` only re-exports it
+        mod = rel[:-3].split("/")[-1]
+        importers = [r for r, t in proj["files"].items() if r != rel and r.endswith(".py") and
+                     re.search(r"^\s*from\s+%s\s+import\s+.*\b%s\b" % (re.escape(mod), re.escape(st.name)), t, re.M)]
+        ed["reexport_importers"] = importers
+        opts += [ed] * (4 if importers else 1)
+    return dict(rng.choice(opts)) if opts else None
 
 
 # ====================================================================================== JavaScript / Java (line shapes)
